@@ -14,9 +14,21 @@ cell, in a helper subprocess per shard.  This file is the *model* side and impor
        (a source must not disturb what another source says about a different setting)
     I  an invalid value from each source able to carry it, alone and with a valid value waiting in a
        less authoritative source (must stop loading, must not fall back);
+    R  reload histories: load, then the config file is edited (the setting is added / changed / REMOVED, or
+       the discovered ./gunicorn.conf.py is deleted) and the application is reloaded the way the master does
+       on SIGHUP, while nothing / the framework / GUNICORN_CMD_ARGS / the command line also mentions the
+       setting and other settings are held by the file, GUNICORN_CMD_ARGS and the command line;
+    RI the edit introduces a value the validator rejects, placed first / in the middle / last in the file;
 * the oracle: effective value == normal form of the value of the most authoritative mentioning source
   (command line > GUNICORN_CMD_ARGS > config file > framework defaults > built-in default); every setting
   nobody mentioned == its built-in default (baseline load); exactly the designated config file was executed.
+  After a reload the master adopts app.cfg exactly when app.reload() returns (Arbiter.reload): then that
+  configuration must be the merge of the sources AS THEY ARE NOW (nothing of the former file version may
+  linger); when the file now holds a rejected value the reload must not return (the master stops with an
+  error status) - or, at the very least, what it returns with must still be the former merge in every setting.
+  File values are written the ways real files write them: literals, functions / classes defined in the file,
+  functions / callable objects / classes imported from a module next to the file, functools.partial objects,
+  enum members of the standard library.
 
 `-c PATH` is, by design, a mention of the setting `config` by the source carrying it, and the application
 argument (or --paste FILE on the command line) is the built-in default of `default_proc_name`; both are
@@ -37,9 +49,11 @@ from vlib.e7_config import ser
 
 PROP = "C16"
 RULE = ("cell = (kind, setting, set of mentioning sources, value assignment, way the config file is delivered | "
-        "invalid representative, carrying source, fallback source); non-trivial = the mentioning sources do not "
-        "all say the same normal form (one source: it differs from the built-in default), every invalid cell, every "
-        "cross-setting cell; distinct by cell")
+        "invalid representative, carrying source, fallback source | reload history: edit of the file (add, change, "
+        "remove, unlink, rejected value at a position), other source mentioning the setting, delivery); non-trivial = "
+        "the mentioning sources do not all say the same normal form (one source: it differs from the built-in "
+        "default), every invalid cell, every cross-setting cell, every history whose edit changes what the merge of "
+        "the sources is or leaves a more authoritative source in charge; distinct by cell")
 SOURCES = ("cli", "env", "file", "framework")          # most authoritative first
 NSHARDS = 32
 FLAG = True                                            # cli rendering of store_true / store_const flags
@@ -51,11 +65,12 @@ class NF(str):
     """An already serialised normal form (functions and classes)."""
 
 
-def V(nf, py=None, cli=None, pre="", load=None):
+def V(nf, py=None, cli=None, pre="", load=None, origin=None):
     """One valid value: normal form, Python text for file/framework, command-line rendering
-    (str for store, list for append, FLAG for flags, None = this kind of source cannot say it)."""
+    (str for store, list for append, FLAG for flags, None = this kind of source cannot say it).
+    origin: where the object a file names comes from when it is not a literal or a def/class of the file."""
     return {"nf": str(nf) if isinstance(nf, NF) else ser(nf), "py": py if py is not None else repr(nf),
-            "cli": cli, "pre": pre, "load": load}
+            "cli": cli, "pre": pre, "load": load, "origin": origin}
 
 
 def BAD(label, py=None, cli=None, pre=""):
@@ -102,10 +117,25 @@ def _lists(*lists):
     return out
 
 
+ORIGINS = ("imported-function", "imported-callable-object", "partial", "imported-class", "enum-member")
+
+
 def _hooks(arity):
+    """Hooks the way files give them: defined in the file; imported from a module shared between deployments
+    (a function, an instance of a class with __call__); a functools.partial binding a leading argument."""
     args = ", ".join("a%d" % i for i in range(arity))
+    wide = ", ".join("a%d" % i for i in range(arity + 1))
+    sh = e7.SHARED
     return [V(NF("<fn c16_hook_%s>" % t), py="c16_hook_%s" % t, pre="def c16_hook_%s(%s):\n    pass" % (t, args))
-            for t in "abcd"]
+            for t in "ab"] + [
+        V(NF("<fn c16_shared_hook_%d>" % arity), py="c16_shared_hook_%d" % arity,
+          pre="from %s import c16_shared_hook_%d" % (sh, arity), origin="imported-function"),
+        V(NF("<partial <fn c16_hook_w> args=['c16']>"), py="c16_functools.partial(c16_hook_w, 'c16')",
+          pre="import functools as c16_functools\ndef c16_hook_w(%s):\n    pass" % wide, origin="partial"),
+        V(NF("<callable-obj C16SharedCallable%d>" % arity), py="c16_shared_obj_%d" % arity,
+          pre="from %s import c16_shared_obj_%d" % (sh, arity), origin="imported-callable-object")] + [
+        V(NF("<fn c16_hook_%s>" % t), py="c16_hook_%s" % t, pre="def c16_hook_%s(%s):\n    pass" % (t, args))
+        for t in "cd"]
 
 
 def klass(m):
@@ -141,8 +171,10 @@ def pool_for(m, P):
         return [V(0, cli="0"), V(7, cli="7"), V(12, py="'12'", cli="12"), V(3, cli="3")]
     if k == "umask":                 # command line: int(x, 0) with 0NN read as octal; file: int or int(x, 0)
         return [V(0, cli="0"), V(18, cli="022"), V(63, py="'0o77'", cli="0o77"), V(7, cli="7")]
-    if k == "cert_reqs":
-        return [V(0, cli="0"), V(2, cli="2"), V(1, py="'1'", cli="1")]
+    if k == "cert_reqs":             # files usually say ssl.CERT_REQUIRED (an IntEnum member; normal form: the int)
+        return [V(0, cli="0"), V(2, cli="2"), V(1, py="'1'", cli="1"),
+                V(2, py="c16_ssl.CERT_REQUIRED", pre="import ssl as c16_ssl", origin="enum-member"),
+                V(1, py="c16_ssl.CERT_OPTIONAL", pre="import ssl as c16_ssl", origin="enum-member")]
     if k == "bool":                  # a store_true flag can only say True
         return [V(True, cli=FLAG), V(False), V(True, py="'true'"), V(False, py="'false'")]
     if k == "sendfile":              # --no-sendfile is store_const False
@@ -187,12 +219,16 @@ def pool_for(m, P):
     if k == "worker_class":          # a name (stripped) or a class object
         return [V("gthread", cli="gthread"), V("sync", py="' sync '", cli=" sync "),
                 V(NF("<class C16Worker>"), py="C16Worker", pre="class C16Worker:\n    pass"),
-                V("gunicorn.workers.ggevent.GeventWorker", cli="gunicorn.workers.ggevent.GeventWorker")]
+                V("gunicorn.workers.ggevent.GeventWorker", cli="gunicorn.workers.ggevent.GeventWorker"),
+                V(NF("<class C16SharedWorker>"), py="C16SharedWorker",
+                  pre="from %s import C16SharedWorker" % e7.SHARED, origin="imported-class")]
     if k == "logger_class":
         return [V("gunicorn.instrument.statsd.Statsd", cli="gunicorn.instrument.statsd.Statsd"),
                 V("gunicorn.glogging.Logger", cli="gunicorn.glogging.Logger"),
                 V(NF("<class C16Logger>"), py="C16Logger", pre="class C16Logger:\n    pass"),
-                V("simple", cli="simple")]
+                V("simple", cli="simple"),
+                V(NF("<class C16SharedLogger>"), py="C16SharedLogger",
+                  pre="from %s import C16SharedLogger" % e7.SHARED, origin="imported-class")]
     if k == "callable":
         return _hooks(m["arity"])
     if k == "post_request":          # (worker, req, environ, resp); shorter legacy forms are wrapped, not used here
@@ -242,12 +278,16 @@ def invalids_for(m, P):
     if k == "chdir":
         return [BAD("missing-directory", py=repr(missing), cli=missing), BAD("non-string", py="5")]
     if k in ("worker_class", "logger_class"):
-        return [BAD("non-string", py="123")]
+        return [BAD("non-string", py="123"),
+                BAD("imported-object-neither-class-nor-string", py="c16_shared_obj_1",
+                    pre="from %s import c16_shared_obj_1" % e7.SHARED)]
     if k in ("callable", "post_request"):
         wrong = (m["arity"] + 1) if k == "callable" else 5
         args = ", ".join("a%d" % i for i in range(wrong))
         return [BAD("wrong-arity", py="c16_bad_hook", pre="def c16_bad_hook(%s):\n    pass" % args),
-                BAD("not-callable", py="5"), BAD("bad-import-string", py="'c16_no_such_module.fn'")]
+                BAD("not-callable", py="5"), BAD("bad-import-string", py="'c16_no_such_module.fn'"),
+                BAD("wrong-arity-imported", py="c16_shared_hook_%d" % wrong,
+                    pre="from %s import c16_shared_hook_%d" % (e7.SHARED, wrong))]
     if k in ("secure_scheme_headers", "logconfig_dict"):
         return [BAD("list-for-dict", py="[('a', 'b')]"), BAD("string-for-dict", py="'a=b'"), BAD("none", py="None")]
     if k == "header_map":
@@ -325,12 +365,50 @@ def enumerate_cells(meta, tier, seed):
                 if lower:
                     cells.append({"kind": "I", "s": m["name"], "src": src, "bad": bad["label"],
                                   "fallback": lower[0]})
+    cells.extend(enumerate_histories(meta, tier, seed, P))
+    return cells
+
+
+R_DELIVERIES = ("cli-c", "env-c", "discover", "fileprefix")     # the file is read again on reload in all of these
+R_OPS = ("add", "change", "remove")
+R_POSITIONS = ("first", "middle", "last")
+
+
+def enumerate_histories(meta, tier, seed, P):
+    """Reload histories. quick: the delivery (and for RI the position) rotates from cell to cell, starting at the
+    seed, so that each is used by a quarter (a third) of the cells; thorough: every delivery, every position,
+    two value offsets."""
+    cells = []
+    n = seed
+    for m in meta:
+        pool = pool_for(m, P)
+        if pool is None or m["name"] == "config":       # `config` itself: the D cells; here it is the delivery
+            continue
+        ctxs = ["none", "framework"] + (["env", "cli"] if m["cli"] else [])
+        offs = (seed % len(pool),) if tier == "quick" else (0, 1)
+        for off in offs:
+            for op in R_OPS:
+                for ctx in ctxs:
+                    for dl in ([R_DELIVERIES[n % 4]] if tier == "quick" else R_DELIVERIES):
+                        cells.append({"kind": "R", "s": m["name"], "op": op, "ctx": ctx, "delivery": dl, "off": off})
+                    n += 1
+            for ctx in ("none", "framework"):
+                cells.append({"kind": "R", "s": m["name"], "op": "unlink", "ctx": ctx, "delivery": "discover",
+                              "off": off})
+        for bad in invalids_for(m, P):
+            if bad["py"] is None:
+                continue
+            for pos in ([R_POSITIONS[n % 3]] if tier == "quick" else R_POSITIONS):
+                for dl in ([R_DELIVERIES[n % 4]] if tier == "quick" else R_DELIVERIES):
+                    cells.append({"kind": "RI", "s": m["name"], "bad": bad["label"], "pos": pos, "delivery": dl,
+                                  "off": offs[0]})
+            n += 1
     return cells
 
 
 def signature(c):
     return "|".join(str(c.get(k, "")) for k in ("kind", "s", "subset", "off", "step", "delivery", "a", "b", "src",
-                                                "bad", "fallback"))
+                                                "bad", "fallback", "op", "ctx", "pos"))
 
 
 # ---- from a symbolic cell to a concrete recipe + what the model expects ---------------------------------
@@ -428,6 +506,124 @@ def build(cell, MB, P):
         if s == "paste" and src == "cli" and not bad:
             dpn = ser(os.path.abspath(v["cli"]).split("#")[0])
     model = {"mentions": mentions, "load": [load] if load else [], "dpn": dpn, "ment": ment}
+    return recipe, model
+
+
+# ---- reload histories: recipe with steps + the model's merge per version of the sources -----------------
+
+R_COMPANIONS = ("backlog", "proc_name", "keepalive", "max_requests", "graceful_timeout")
+
+
+def _deliver(dl, P, argv, envt, mentions):
+    """How the file reaches gunicorn -> path that will be executed (the mention of `config` is recorded)."""
+    if dl == "cli-c":
+        argv += ["-c", P["main"]]
+        mentions.setdefault("config", {})["cli"] = ser(P["main"])
+    elif dl == "env-c":
+        envt += ["-c", P["main"]]
+        mentions.setdefault("config", {})["env"] = ser(P["main"])
+    elif dl == "fileprefix":
+        argv += ["--config", "file:" + P["main"]]
+        mentions.setdefault("config", {})["cli"] = ser("file:" + P["main"])
+    else:
+        return P["discover"]
+    return P["main"]
+
+
+def _file_text(lines):
+    """lines: [(setting, value)] in file order."""
+    pre = []
+    for _, v in lines:
+        if v["pre"] and v["pre"] not in pre:
+            pre.append(v["pre"])
+    return e7.FILE_HEADER + "".join(x + "\n" for x in pre) + "".join("%s = %s\n" % (k, v["py"]) for k, v in lines)
+
+
+def _choose(pool, src, start, avoid, prefer_not=()):
+    """First value from `start` on that `src` can say and whose normal form is not in `avoid`
+    (if possible also not in `prefer_not`)."""
+    cands = [pool[(start + d) % len(pool)] for d in range(len(pool))]
+    cands = [v for v in cands if can_say(src, v) and v["nf"] not in avoid]
+    best = [v for v in cands if v["nf"] not in prefer_not]
+    return (best or cands or [None])[0]
+
+
+def build_history(cell, MB, P, baseline):
+    """-> recipe (with steps), model {"versions": [{"mentions", "load", "invalid", "lines"}, ...], ...}.
+    Version 0 is what the server starts with; every later version is one edit of the file + one reload.
+    All the while the command line holds a setting U, GUNICORN_CMD_ARGS a setting W and the file a setting T
+    (RI: T and T2, whose values the edit changes too), none of them the setting under test."""
+    m = MB[cell["s"]]
+    name = m["name"]
+    pool = pool_for(m, P)
+    others = [c for c in R_COMPANIONS if c != name]
+    T, U, W, T2 = others[0], others[1], others[2], others[3]
+    argv, envt, fixed = [], [], {}
+
+    def say(src, sname, v):
+        if src in ("cli", "env"):
+            (argv if src == "cli" else envt).extend(cli_tokens(MB[sname], v, src))
+        fixed.setdefault(sname, {})[src] = v["nf"]
+
+    u = pool_for(MB[U], P)
+    w = pool_for(MB[W], P)
+    say("cli", U, u[pick(u, "cli", 1)])
+    say("env", W, w[pick(w, "env", 2)])
+    load = _deliver(cell["delivery"], P, argv, envt, fixed)
+    tp, t2p = pool_for(MB[T], P), pool_for(MB[T2], P)
+    t_a, t_b = tp[pick(tp, "file", 1)], tp[pick(tp, "file", 2)]
+    t2_a, t2_b = t2p[pick(t2p, "file", 1)], t2p[pick(t2p, "file", 3)]
+    fw = None
+    dpn = ser("app:app")
+    default = baseline[name]
+    if cell["kind"] == "R":
+        ctx = cell["ctx"]
+        c = None
+        if ctx != "none":
+            c = _choose(pool, ctx, cell["off"], ())
+            if ctx == "framework":
+                fw = c
+                fixed.setdefault(name, {})["framework"] = c["nf"]
+            else:
+                say(ctx, name, c)
+                if name == "paste" and ctx == "cli":
+                    dpn = ser(os.path.abspath(c["cli"]).split("#")[0])
+        away = (c["nf"],) if c else ()
+        a = _choose(pool, "file", cell["off"], away, (default,)) or _choose(pool, "file", cell["off"], ())
+        b = _choose(pool, "file", cell["off"] + 1, away + (a["nf"],), (default,)) \
+            or _choose(pool, "file", cell["off"] + 1, (a["nf"],)) or a
+        with_a = [(name, a), (T, t_a)] if cell["off"] % 2 == 0 else [(T, t_a), (name, a)]
+        with_b = [(T, t_a), (name, b)] if cell["off"] % 2 == 0 else [(name, b), (T, t_a)]
+        without = [(T, t_a)]
+        versions = {"add": [without, with_a], "change": [with_a, with_b], "remove": [with_a, without],
+                    "unlink": [with_a, None]}[cell["op"]]
+        invalid = [False, False]
+    else:
+        bad = [x for x in invalids_for(m, P) if x["label"] == cell["bad"]][0]
+        a = _choose(pool, "file", cell["off"], (), (default,))
+        v0 = [(T, t_a), (name, a), (T2, t2_a)]
+        rest = [(T, t_b), (T2, t2_b)]
+        at = {"first": 0, "middle": 1, "last": 2}[cell["pos"]]
+        versions = [v0, rest[:at] + [(name, bad)] + rest[at:]]
+        invalid = [False, True]
+    out = []
+    for lines, inv in zip(versions, invalid):
+        ment = {k: dict(v) for k, v in fixed.items()}
+        if lines is None:                       # the discovered default file is gone
+            ment.pop("config", None)
+        else:
+            for sname, v in lines:
+                ment.setdefault(sname, {})["file"] = v["nf"]
+        out.append({"mentions": ment, "load": [load] if lines is not None else [], "invalid": inv,
+                    "text": _file_text(lines)[len(e7.FILE_HEADER):] if lines is not None else None,
+                    "origins": [v.get("origin") for sname, v in (lines or []) if sname == name]})
+    recipe = {"argv": argv + ["app:app"], "env": shlex.join(envt),
+              "files": {load: _file_text(versions[0])},
+              "steps": [{"files": {load: _file_text(ls) if ls is not None else None}} for ls in versions[1:]]}
+    if fw is not None:
+        recipe["framework"] = (fw["pre"] + "\n" if fw["pre"] else "") + "FRAMEWORK = {%r: %s}\n" % (name, fw["py"])
+    model = {"versions": out, "mentions": out[0]["mentions"], "load": out[0]["load"], "dpn": dpn, "ment": [],
+             "companions": {"file": T, "cli": U, "env": W}}
     return recipe, model
 
 
@@ -549,6 +745,173 @@ def judge(run, cell, recipe, model, baseline, obs, MB):
             run.count("falsy_command_line_value_wins")
         if s == name and v["cli"] not in (None, FLAG) and src in ("cli", "env") and ser(v["cli"]) != v["nf"]:
             run.count("normalisation_observed")
+        if s == name and src == wsrc and v.get("origin") and exp != baseline[name]:
+            run.count("%s_value_%s_in_effect" % (src, v["origin"]))
+
+
+def deviations(values, mentions, model, baseline):
+    """Settings whose observed value is not what the merge of `mentions` gives: (mentioned ones, the others)."""
+    vm = dict(model, mentions=mentions)
+    wrong_mentioned, wrong_other = [], []
+    for sname in baseline:
+        exp, wsrc = expected(sname, vm, baseline)
+        got = values[sname]
+        if got != exp:
+            (wrong_mentioned if sname in mentions else wrong_other).append((sname, exp, wsrc, got))
+    return wrong_mentioned, wrong_other
+
+
+def _precedence_mechanism(sname, exp, wsrc, got, by, model, baseline, MB):
+    actual = [s for s in SOURCES if s != wsrc and by.get(s) == got]
+    if actual:
+        return "wrong-precedence/%s-lost-to-%s" % (wsrc, actual[0])
+    if got == baseline[sname] or (sname == "default_proc_name" and got == model["dpn"]):
+        return "wrong-precedence/%s-lost-to-default" % wsrc
+    return "value-not-normalised/" + MB[sname]["validator"]
+
+
+def judge_history(run, cell, recipe, model, baseline, obs, MB):
+    """Decide one reload history; at most one violation per history."""
+    name = cell["s"]
+    vname = MB[name]["validator"]
+    vers = model["versions"]
+    shown = {"argv": recipe["argv"], "GUNICORN_CMD_ARGS": recipe.get("env"), "framework": recipe.get("framework"),
+             "file_versions": [v["text"] for v in vers]}
+    run.count("reload_histories")
+    # -- the start
+    if not obs["ok"]:
+        run.violation("valid-configuration-rejected/" + vname,
+                      "%s: loading failed (%s code=%s %s) for valid values at the start of a reload history; "
+                      "sources %s" % (name, obs["exc"], obs["code"], obs["stderr"].strip()[-160:], json.dumps(shown)),
+                      cell)
+        return
+    if set(obs["values"]) != set(baseline):
+        run.inconclusive_because("set of settings changed between baseline and cell")
+        return
+    wm, wo = deviations(obs["values"], vers[0]["mentions"], model, baseline)
+    if wm or wo:
+        sname, exp, wsrc, got = (wm or wo)[0]
+        mech = _precedence_mechanism(sname, exp, wsrc, got, vers[0]["mentions"].get(sname, {}), model, baseline, MB) \
+            if wm else "unmentioned-setting-changed"
+        run.violation(mech, "%s: effective value %s at the start of a reload history, expected %s (from %s); "
+                      "sources %s" % (sname, got, exp, wsrc, json.dumps(shown)), cell)
+        return
+    if obs["loaded"] != vers[0]["load"]:
+        run.violation("wrong-config-file-loaded", "config files executed %s, expected %s; sources %s" % (
+            obs["loaded"], vers[0]["load"], json.dumps(shown)), cell)
+        return
+    # -- the reloads
+    steps = obs.get("steps", [])
+    for i, ver in enumerate(vers[1:], 1):
+        if i > len(steps):
+            run.inconclusive_because("history %s: reload %d was not executed" % (signature(cell), i))
+            return
+        o, prev = steps[i - 1], vers[i - 1]
+        if ver["invalid"]:
+            if not o["returned"]:
+                if o["code"] in (0, None):
+                    run.violation("reload/invalid-value-no-error-status/" + vname,
+                                  "%s: value rejected on reload (%s) but the exit status is %r" % (
+                                      name, cell["bad"], o["code"]), cell)
+                    return
+                run.count("reload_invalid_rejected")
+                run.count("reload_invalid_position_" + cell["pos"])
+                run.count("reload_delivery_" + cell["delivery"])
+                return                      # the master is gone
+            # the master goes on with app.cfg: tolerable only if that still is the former merge, entirely
+            wm, wo = deviations(o["values"], prev["mentions"], model, baseline)
+            if wm or wo:
+                # the most authoritative loser first: that is the telling one
+                sname, exp, wsrc, got = sorted(wm + wo, key=lambda d: (SOURCES + ("default",)).index(d[2]))[0]
+                run.violation("reload/invalid-value-adopted/" + vname,
+                              "%s: the edited file gives the rejected value %s (%s, placed %s); app.reload() returned "
+                              "and the configuration the master adopts is neither an error nor the former one: "
+                              "%d settings deviate from what was in effect, e.g. %s is now %s although %s gave %s; "
+                              "all mentions of it before the edit %s; sources %s" % (
+                                  name, [x for x in invalids_for(MB[name], paths("/H")) if x["label"] == cell["bad"]][0]["py"],
+                                  cell["bad"], cell["pos"], len(wm) + len(wo), sname, got,
+                                  {"cli": "the command line", "env": "GUNICORN_CMD_ARGS", "file": "the file",
+                                   "framework": "the framework", "default": "the built-in default"}[wsrc], exp,
+                                  json.dumps(prev["mentions"].get(sname, {}), sort_keys=True), json.dumps(shown)), cell)
+                return
+            run.count("reload_invalid_kept_previous")
+            vers[i]["mentions"] = prev["mentions"]         # what is in effect from here on
+            continue
+        if not o["returned"]:
+            run.violation("reload/valid-configuration-rejected/" + vname,
+                          "%s: reload %d failed (%s code=%s) although every source is valid; sources %s; stderr %s" % (
+                              name, i, o.get("exc"), o.get("code"), json.dumps(shown),
+                              obs.get("stderr_all", "").strip()[-200:]), cell)
+            return
+        wm, wo = deviations(o["values"], ver["mentions"], model, baseline)
+        for sname, exp, wsrc, got in wm + wo:
+            before = expected(sname, dict(model, mentions=prev["mentions"]), baseline)[0]
+            was_file = "file" in prev["mentions"].get(sname, {}) and "file" not in ver["mentions"].get(sname, {})
+            if was_file and got == prev["mentions"][sname]["file"]:
+                run.violation("reload/removed-setting-still-in-effect",
+                              "%s: after the reload the value %s of the FORMER file version is in effect, but the "
+                              "file no longer mentions it (%s); the merge of the current sources gives %s (from %s); "
+                              "current mentions %s; %d settings deviate; sources %s" % (
+                                  sname, got, "file deleted" if ver["text"] is None else "line removed", exp, wsrc,
+                                  json.dumps(ver["mentions"].get(sname, {}), sort_keys=True), len(wm) + len(wo),
+                                  json.dumps(shown)), cell)
+                return
+            if got == before:
+                run.violation("reload/edit-not-in-effect",
+                              "%s: after the reload still %s as before the edit; the merge of the current sources "
+                              "gives %s (from %s); current mentions %s; sources %s" % (
+                                  sname, got, exp, wsrc, json.dumps(ver["mentions"].get(sname, {}), sort_keys=True),
+                                  json.dumps(shown)), cell)
+                return
+        if wm:
+            sname, exp, wsrc, got = wm[0]
+            by = ver["mentions"][sname]
+            run.violation("reload/" + _precedence_mechanism(sname, exp, wsrc, got, by, model, baseline, MB),
+                          "%s: effective value %s after reload %d, but the most authoritative source mentioning it "
+                          "(%s) says %s; all mentions %s; built-in default %s; sources %s" % (
+                              sname, got, i, wsrc, exp, json.dumps(by, sort_keys=True), baseline[sname],
+                              json.dumps(shown)), cell)
+            return
+        if wo:
+            sname, exp, wsrc, got = wo[0]
+            run.violation("reload/unmentioned-setting-changed",
+                          "%s is mentioned by no source after the edit but is %s instead of its built-in default %s "
+                          "(%d such settings); cell setting %s; sources %s" % (
+                              sname, got, exp, len(wo), name, json.dumps(shown)), cell)
+            return
+        if o["loaded"] != ver["load"]:
+            run.violation("reload/wrong-config-file-loaded",
+                          "config files executed on reload %s, expected %s; sources %s" % (
+                              [os.path.basename(x) for x in o["loaded"]], [os.path.basename(x) for x in ver["load"]],
+                              json.dumps(shown)), cell)
+            return
+        # reach: what this reload showed
+        run.count("reload_settings_compared", len(baseline))
+        run.count("reload_delivery_" + cell["delivery"])
+        vm = dict(model, mentions=ver["mentions"])
+        exp, wsrc = expected(name, vm, baseline)
+        before = expected(name, dict(model, mentions=prev["mentions"]), baseline)[0]
+        op = cell["op"]
+        if op in ("add", "change") and wsrc == "file" and exp != before:
+            run.count("reload_%s_takes_effect" % op)
+            for org in ver["origins"]:
+                if org:
+                    run.count("reload_brings_in_" + org)
+        elif op in ("remove", "unlink") and wsrc in ("framework", "default") and exp != before:
+            run.count("reload_%s_falls_back_to_%s" % (op, wsrc))
+        elif wsrc in ("cli", "env"):
+            run.count("reload_%s_keeps_winning_over_edited_file" % wsrc)
+        comp = model["companions"]
+        if all(expected(comp[k], vm, baseline)[1] == k for k in ("cli", "env")) and \
+                (ver["text"] is None or expected(comp["file"], vm, baseline)[1] == "file"):
+            run.count("reload_other_sources_settings_intact")
+
+
+def history_nontrivial(cell, model, baseline):
+    if cell["kind"] == "RI" or cell["ctx"] in ("cli", "env"):
+        return True
+    a, b = (expected(cell["s"], dict(model, mentions=v["mentions"]), baseline)[0] for v in model["versions"][:2])
+    return a != b
 
 
 # ---- shard / main / replay ---------------------------------------------------------------------------
@@ -558,7 +921,8 @@ BASE_RECIPE = {"argv": ["app:app"], "files": {}}
 
 def same_obs(a, b):
     keys = ("ok", "values", "loaded", "code", "exc")
-    return all(a.get(k) == b.get(k) for k in keys)
+    strip = lambda st: None if st is None else [{k: v for k, v in x.items() if k != "msg"} for x in st]  # noqa: E731
+    return all(a.get(k) == b.get(k) for k in keys) and strip(a.get("steps")) == strip(b.get("steps"))
 
 
 def run_cells(run, cells, seed, tier, isolate):
@@ -570,12 +934,22 @@ def run_cells(run, cells, seed, tier, isolate):
         meta = e7.describe(home)
         MB = {m["name"]: m for m in meta}
         built = []
+        pre = None
+        if any(c["kind"] in ("R", "RI") for c in cells):
+            # histories choose values that differ from the built-in default: one baseline load ahead of the batch
+            pre = e7.run_recipes(home, [BASE_RECIPE], timeout=120)[0]
+            if not pre["ok"]:
+                run.inconclusive_because("baseline load failed: %s" % json.dumps(pre)[:300])
+                return
         for c in cells:
             if c["kind"] == "?" or c["s"] not in MB or klass(MB[c["s"]]) is None:
                 run.inconclusive_because("no value table for setting %s (validator %s)" % (
                     c["s"], MB.get(c["s"], {}).get("validator")))
                 continue
-            built.append((c,) + build(c, MB, P))
+            if c["kind"] in ("R", "RI"):
+                built.append((c,) + build_history(c, MB, P, pre["values"]))
+            else:
+                built.append((c,) + build(c, MB, P))
         base_c = {"argv": ["-c", P["main"], "app:app"], "files": {P["main"]: e7.FILE_HEADER}}
         recipes = [BASE_RECIPE, base_c] + [r for _, r, _ in built] + [BASE_RECIPE]
         obs = e7.run_recipes(home, recipes, timeout=600 if tier == "quick" else 3600)
@@ -591,8 +965,15 @@ def run_cells(run, cells, seed, tier, isolate):
         if blast["values"] != baseline:
             run.inconclusive_because("state leaked between loads in one helper process (baseline changed)")
             return
+        if pre is not None and pre["values"] != baseline:
+            run.inconclusive_because("baseline load ahead of the batch differs from the one inside it")
+            return
         run.count("baselines_agree")
         for (c, recipe, model), o in zip(built, obs[2:-1]):
+            if c["kind"] in ("R", "RI"):
+                run.case(signature(c), nontrivial=history_nontrivial(c, model, baseline))
+                judge_history(run, c, recipe, model, baseline, o, MB)
+                continue
             run.case(signature(c), nontrivial=is_nontrivial(c, model, baseline))
             judge(run, c, recipe, model, baseline, o, MB)
         # in-process repetition must not matter: a few cells again, each in a process of its own
@@ -604,6 +985,14 @@ def run_cells(run, cells, seed, tier, isolate):
             else:
                 run.inconclusive_because("cell %s observed differently in a fresh process" % signature(built[i][0]))
         for c, recipe, model in built:
+            if c["kind"] == "R" and c["op"] in ("remove", "unlink") or c["kind"] == "RI":
+                last = model["versions"][-1]
+                run.sample({"cell": c, "argv": recipe["argv"], "GUNICORN_CMD_ARGS": recipe.get("env"),
+                            "framework": recipe.get("framework"),
+                            "config_file_versions": [v["text"] for v in model["versions"]],
+                            "expected_after_reload": "the master stops with an error (or keeps the former "
+                            "configuration entirely)" if last["invalid"] else
+                            expected(c["s"], dict(model, mentions=last["mentions"]), baseline)[0]}, cap=2)
             if c["kind"] == "M" and len(c["subset"]) >= 3 or c["kind"] == "I" and c["fallback"]:
                 exp = None if c["kind"] == "I" else expected(c["s"], model, baseline)[0]
                 run.sample({"cell": c, "argv": recipe["argv"], "GUNICORN_CMD_ARGS": recipe.get("env"),
@@ -644,18 +1033,31 @@ def main(tier, seed):
                 "delivery_env-c", "delivery_discover", "delivery_python", "delivery_fileprefix",
                 "invalid_cells", "invalid_rejected", "invalid_rejected_from_cli", "invalid_rejected_from_env",
                 "invalid_rejected_from_file", "invalid_rejected_from_framework", "invalid_rejected_despite_fallback",
-                "unmentioned_settings_compared", "mentioned_settings_compared", "fresh_process_agrees")
+                "unmentioned_settings_compared", "mentioned_settings_compared", "fresh_process_agrees",
+                # how files name objects that are not literals
+                *["file_value_%s_in_effect" % o for o in ORIGINS],
+                # reload histories
+                "reload_histories", "reload_settings_compared", "reload_add_takes_effect", "reload_change_takes_effect",
+                "reload_remove_falls_back_to_default", "reload_remove_falls_back_to_framework",
+                "reload_unlink_falls_back_to_default", "reload_unlink_falls_back_to_framework",
+                "reload_cli_keeps_winning_over_edited_file", "reload_env_keeps_winning_over_edited_file",
+                "reload_other_sources_settings_intact", "reload_invalid_rejected",
+                *["reload_invalid_position_" + x for x in R_POSITIONS],
+                *["reload_delivery_" + x for x in R_DELIVERIES])
     meta = _meta_once()
     cells = enumerate_cells(meta, tier, seed)
     run.info["settings"] = len(meta)
     run.info["settings_with_cli_flag"] = len([m for m in meta if m["cli"]])
     run.info["matrix_cells"] = len(cells)
-    for k in "MDXI":
+    for k in ("M", "D", "X", "I", "R", "RI"):
         run.info["matrix_cells_" + k] = len([c for c in cells if c["kind"] == k])
     run.extra_cov["exhaustive"] = True
     run.extra_cov["matrix"] = ("every setting of make_settings() x every non-empty subset of the sources able to "
                                "mention it x %d value assignments; plus delivery, cross-setting and invalid-value "
-                               "cells (see rule)" % len(assignments(4, tier, seed)))
+                               "cells; plus, per setting, reload histories {add, change, remove} x {nobody else, "
+                               "framework, GUNICORN_CMD_ARGS, command line also mentions it}, deletion of the "
+                               "discovered file, and every file-expressible invalid representative introduced by an "
+                               "edit (see rule)" % len(assignments(4, tier, seed)))
     run.assumptions = [
         "judged at the settings layer (cfg.settings[name].get() after Application.load_config); derived properties "
         "(cfg.sendfile, cfg.worker_class, cfg.address ...) are out of scope",
@@ -668,6 +1070,16 @@ def main(tier, seed):
         "an invalid value in a less authoritative source that a more authoritative valid value would override is not "
         "judged (the statement does not say whether it must still stop startup); invalid + less authoritative valid is",
         "accounts root/www-data/nobody/nogroup are used only if the local databases map them to 0/33/65534",
+        "reload histories are run on the application object: app.reload() is the call Arbiter.reload() makes on SIGHUP, "
+        "and the master adopts app.cfg (Arbiter.setup) exactly when that call returns; an exception, SystemExit "
+        "included, ends the master, so what app.cfg holds after a failed reload is not judged; gunicorn.debug.spew is "
+        "stubbed (reload() installs the line tracer when spew is set)",
+        "a reload with a rejected value in the file may either not return (error status) or return with the former "
+        "merge intact in every setting; anything else counts as the rejected value having been silently replaced",
+        "histories deliver the file by path (-c PATH on the command line or in GUNICORN_CMD_ARGS, file:PATH, discovered "
+        "./gunicorn.conf.py); python:MODULE is left out of histories: the module stays in sys.modules, so an edit of "
+        "its file is by construction of the import system not seen by a reload; the `config` setting itself has no "
+        "history cells (it is the delivery)",
     ]
     shards = [{"sub": i, "of": NSHARDS, "seed": seed, "tier": tier} for i in range(NSHARDS)]
     common.run_sharded(run, shards, timeout=600 if tier == "quick" else 3600)
